@@ -363,6 +363,10 @@ class Engine:
                     status, model, backend, secs = r0[0], None, r0[2] + "(entry-hyps)", 0.0
             if status is None:
                 status, model, backend, secs = smt.check_sat(self.pc + [z3.Not(g)], self.sh.timeout_ms)
+                if status == "unknown" and not getattr(self.sh, "refute_bound", 0) and time.time() - t0 < 3 * self.sh.timeout_ms / 1000.0:
+                    # one retry with a larger budget: verdicts must not flip to 'undecided' merely because the machine is busy
+                    status, model, backend, secs = smt.check_sat(self.pc + [z3.Not(g)], self.sh.timeout_ms * 3)
+                    backend = backend + "(retry)"
             ob.status = status
             ob.backend = backend
             ob.secs = time.time() - t0
@@ -1806,6 +1810,18 @@ class Engine:
             return (n, d) if self.fits_mantissa(na, kind) else None
         return None
 
+    def fp_uf(self, name, x, y):
+        """IEEE operation kept abstract: an uninterpreted function of its operands (same operands, same result). Sound for proving
+        that code and reference apply the same operations to the same values; refutations are replayed natively."""
+        key = "%s$%s" % (name, x.sort())
+        f = self.memo.get(key)
+        if f is None:
+            f = z3.Function(key.replace(" ", "_").replace("(", "_").replace(")", "_").replace(",", "_"), x.sort(), y.sort(), x.sort())
+            self.memo[key] = f
+        self.sh.assumed = getattr(self.sh, "assumed", set())
+        self.sh.assumed.add("float %s of two unknown operands is an uninterpreted (deterministic) function of them: IEEE-754 rounding of these operations is not modelled" % name)
+        return f(x, y)
+
     def float_binop(self, op, a, b):
         """IEEE arithmetic with NEP-50 promotion: f32 op python scalar -> f32; f32 op f64(np) -> f64."""
         fa = a if isinstance(a, VFloat) else None
@@ -1834,12 +1850,20 @@ class Engine:
         elif op == "-":
             r = z3.fpSub(RNE, x, y)
         elif op == "*":
-            r = z3.fpMul(RNE, x, y)
+            fa_ = getattr(self.contract, "float_abstract", False)
+            if fa_ == "all" or (fa_ and not (z3.is_fp_value(simp(x)) or z3.is_fp_value(simp(y)))):
+                r = self.fp_uf("fmul", x, y)     # correctly rounded product of two unknowns: uninterpreted (congruence only)
+            else:
+                r = z3.fpMul(RNE, x, y)
         elif op == "/":
             if not isnp:
                 if not self.branch(z3.Not(z3.fpIsZero(y))):
                     raise PyRaise(ZeroDivisionError, "float division by zero", self.cur_line)
-            r = z3.fpDiv(RNE, x, y)
+            fa_ = getattr(self.contract, "float_abstract", False)
+            if fa_ == "all" or (fa_ and not z3.is_fp_value(simp(y))):
+                r = self.fp_uf("fdiv", x, y)
+            else:
+                r = z3.fpDiv(RNE, x, y)
         elif op in ("//", "%"):
             if not self.branch(z3.Not(z3.fpIsZero(y))):
                 raise PyRaise(ZeroDivisionError, "float floor division by zero", self.cur_line)
